@@ -1,4 +1,61 @@
 import LWV.Model.Mgmt
 import LWV.Spec.Mgmt
+import LWV.Props.C08
+/-
+C04 — management parsers report what the frame says; generated frames round-trip.
+
+Proved here: every parser refuses frames of another type or subtype (for every frame); the
+constants the parsers use (subtype numbers, fixed-parameter sizes, element numbers) are the
+standard's.  The positive clause — the parser of the frame's own subtype reports the Spec's values
+for every well-formed frame (`C04_parse_statement`) — composes C06 (iteration), C08 (element
+decode) and the per-element handlers; it is decided by the correspondence run against the
+declarative Spec report and is not yet a Lean theorem (DESIGN.md, C04, "partial").
+-/
 namespace LWV.Props.C04
+open LWV LWV.Model
+
+/-- **C04 (constants)** -/
+theorem C04_consts :
+    (∀ k : MKind, (k.subtype : Int) ∈ (Gen.enum_libwifi_mgmt_subtypes.map (·.2))) ∧
+    MKind.subtype .beacon = ((Gen.enum_libwifi_mgmt_subtypes.lookup n!"SUBTYPE_BEACON").getD 99).toNat ∧
+    MKind.subtype .probeResp = ((Gen.enum_libwifi_mgmt_subtypes.lookup n!"SUBTYPE_PROBE_RESP").getD 99).toNat ∧
+    MKind.subtype .assocResp = ((Gen.enum_libwifi_mgmt_subtypes.lookup n!"SUBTYPE_ASSOC_RESP").getD 99).toNat ∧
+    MKind.subtype .reassocResp = ((Gen.enum_libwifi_mgmt_subtypes.lookup n!"SUBTYPE_REASSOC_RESP").getD 99).toNat ∧
+    MKind.subtype .probeReq = ((Gen.enum_libwifi_mgmt_subtypes.lookup n!"SUBTYPE_PROBE_REQ").getD 99).toNat ∧
+    MKind.subtype .assocReq = ((Gen.enum_libwifi_mgmt_subtypes.lookup n!"SUBTYPE_ASSOC_REQ").getD 99).toNat ∧
+    MKind.subtype .reassocReq = ((Gen.enum_libwifi_mgmt_subtypes.lookup n!"SUBTYPE_REASSOC_REQ").getD 99).toNat ∧
+    MKind.subtype .deauth = ((Gen.enum_libwifi_mgmt_subtypes.lookup n!"SUBTYPE_DEAUTH").getD 99).toNat ∧
+    MKind.subtype .disassoc = ((Gen.enum_libwifi_mgmt_subtypes.lookup n!"SUBTYPE_DISASSOC").getD 99).toNat ∧
+    (∀ k : MKind, k.fixedLen = match k with
+      | .beacon | .probeResp => 12 | .assocResp | .reassocResp => 6 | .probeReq => 0 | .assocReq => 4 | .reassocReq => 10
+      | .deauth | .disassoc => 2) ∧
+    tagSsidN = 0 ∧ tagDsN = 3 ∧ tagHtOp = 61 ∧ tagRsn = 48 ∧ tagVendor = 221 := by
+  refine ⟨fun k => by cases k <;> decide +kernel, ?_, ?_, ?_, ?_, ?_, ?_, ?_, ?_, ?_, fun k => by cases k <;> decide +kernel, ?_⟩ <;>
+    decide +kernel
+
+/-- **C04 (other subtype)** the parser of every other type or subtype refuses the frame with an
+error — for every frame whatsoever -/
+theorem C04_other_subtype (k : MKind) (f : Frame) (h : typeOk f k = false) : parseMgmt k f = .err (-EINVAL) := by
+  unfold parseMgmt
+  simp [h]
+
+/-- reading of `typeOk`: management type and the parser's own subtype -/
+theorem typeOk_iff (k : MKind) (f : Frame) (b0 : UInt8) (rest : Bytes) (hfc : f.fc = b0 :: rest) :
+    typeOk f k = true ↔ fcType b0 = 0 ∧ fcSubtype b0 = k.subtype := by
+  simp [typeOk, hfc]
+
+/-- a parser never faults on a coherent frame of the wrong kind and never accepts it -/
+theorem C04_wrong_kind_no_fault (k : MKind) (f : Frame) (h : typeOk f k = false) : (parseMgmt k f).isFault = false := by
+  rw [C04_other_subtype k f h]; rfl
+
+/-- The positive clause (NOT proved; see the header comment): on a frame of the parser's own
+subtype whose tagged-parameter region is well formed, the parser succeeds and reports the
+declarative Spec values. -/
+def C04_parse_statement : Prop :=
+  ∀ (f : Frame) (tags : Bytes), f.len = f.headerLen + f.body.length → typeOk f .beacon = true →
+    f.body.length ≥ 12 → tags = f.body.drop 12 → Spec.wellFormedTags tags = true →
+    ∀ r, Spec.bssReport (((f.body.getD 10 0).toNat / 16) % 2 = 1) (Spec.parse tags) = some r →
+      ∃ b, parseMgmt .beacon f = .ok (.bss b) ∧ b.ssid = r.ssid ∧ b.hidden = r.hidden ∧ b.channel = r.channel ∧
+        b.wps = r.wps ∧ b.enc = r.enc ∧ b.tags = tags
+
 end LWV.Props.C04
